@@ -53,6 +53,49 @@ class Tok(Term):
 FLOAT = float
 
 
+class Vec(Tok):
+    """The stored coefficient vector: a NumPy array the evaluator may index with position lists and store into; a vector that was
+    written to is no longer `X` (its key lists the stores), so whatever it is handed to afterwards is seen to get something else."""
+
+    def __init__(self, name: str):
+        super().__init__(name)
+        self.stores: List[Tuple[int, str]] = []
+
+    def key(self) -> str:
+        return self.op if not self.stores else f"{self.op}{{{', '.join(f'{i}:={v}' for i, v in self.stores)}}}"
+
+    def _cell(self, i: int):
+        for j, v in reversed(self.stores):
+            if j == i:
+                return Tok(v)
+        return Tok("item", Tok(self.op), i)
+
+    def __getitem__(self, k):
+        if isinstance(k, (list, tuple)) and all(isinstance(i, int) for i in k):
+            return [self._cell(i) for i in k]
+        if isinstance(k, int):
+            return self._cell(k)
+        return Tok.__getitem__(self, k)
+
+    def __setitem__(self, k, v):
+        if isinstance(k, int):
+            k, v = [k], [v]
+        if not (isinstance(k, (list, tuple)) and all(isinstance(i, int) for i in k)) or not isinstance(v, (list, tuple)) or len(v) != len(k):
+            raise Unsupported("store into the coefficient vector other than positions := values")
+        for i, x in zip(k, v):
+            self.stores.append((i, _k(x)))
+
+    def copy(self):
+        c = Vec(self.op)
+        c.stores = list(self.stores)
+        return c
+
+    __hash__ = Term.__hash__
+
+    def __eq__(self, o):
+        return isinstance(o, Term) and o.key() == self.key()
+
+
 class ZArr(Stub):
     def __init__(self, like: Term):
         self.like = like
@@ -144,7 +187,7 @@ def interpret_evaluator(chk, fi: FuncInfo, kind: str, model_key: str) -> Dict[st
     it = Interp(step_limit=50_000)
     env = ModuleEnv(chk.repo, fi.module, it, _stand_ins(rec))
     lim = {k: Tok(k) for k in ("T_min", "T_max", "T_min_seg", "T_max_seg")}
-    X = Tok("X")
+    X = Vec("X")
     T = Tok("T")
     if kind == "stored":
         coefficients = AbsObj({"ModelCoefficients"}, model_key=model_key)
